@@ -173,7 +173,9 @@ def run_seeds(job):
       r2 = run_case(machine, small)
       v2 = next((x for x in r2.get('violations', []) if x['fp'] == fp), v)
       agg['violations'].append({'run': i, 'fp': fp, 'msg': v2['msg'],
-                                'case': small, 'orig_ops': machine.size(case),
+                                'case': small, 'orig_case': case,
+                                'orig_msg': v['msg'],
+                                'orig_ops': machine.size(case),
                                 'min_ops': machine.size(small)})
       stop = True
       break
@@ -205,6 +207,8 @@ def replay(job):
 
 
 def main():
+  from fsim import simlock
+  simlock.install()   # before fiddle is imported: its locks become schedulable
   quiet_logging()
   job = json.loads(sys.stdin.read())
   faulthandler.enable()
